@@ -331,11 +331,25 @@ static void Array_Rem(var self, var obj) {
   throw(ValueError, "Object %$ not in Array!", obj);
 }
 
+/*
+** The element to insert may be one of the Array's own (`push(a, get(a, i))`):
+** growing the storage moves it, so the pointer has to move with it.
+*/
+static var Array_Follow(struct Array* a, var obj, char* old, size_t oldsize) {
+  if (old isnt NULL and (char*)obj >= old and (char*)obj < old + oldsize) {
+    return (char*)a->data + ((char*)obj - old);
+  }
+  return obj;
+}
+
 static void Array_Push(var self, var obj) {
   struct Array* a = self;
+  char* old = a->data;
+  size_t oldsize = Array_Step(a) * a->nslots;
   a->nitems++;
   Array_Reserve_More(a);
   a->nitems--;
+  obj = Array_Follow(a, obj, old, oldsize);
   Array_Alloc(a, a->nitems);
   assign(Array_Item(a, a->nitems), obj);
   a->nitems++;
@@ -355,9 +369,12 @@ static void Array_Push_At(var self, var obj, var key) {
   }
 #endif
   
+  char* old = a->data;
+  size_t oldsize = Array_Step(a) * a->nslots;
   a->nitems++;
   Array_Reserve_More(a);
   a->nitems--;
+  obj = Array_Follow(a, obj, old, oldsize);
   
   /* Build the element past the end first: if assign fails nothing changed */
   Array_Alloc(a, a->nitems);
